@@ -1,8 +1,11 @@
 // Native replay / witness driver for C02 and C01 (per-node dynamics kernels).
 // Small random trees (1-4 bodies, chains and branches, mixed Pin/Slider/Universal/Cylinder/Ball/Free/... mobilizers, random valid mass
 // properties, random mobilizer frames, random q,u and applied mobility/body forces) through the PUBLIC API of SimbodyMatterSubsystem.
-// The dynamics passes (RigidBodyNodeSpec.cpp, RigidBodyNode.cpp, RigidBodyNode_Weld.cpp, RigidBodyNodeSpec_Derived.cpp,
+// The dynamics passes (RigidBodyNodeSpec.cpp, RigidBodyNode.cpp, RigidBodyNode_Weld.cpp, RigidBodyNode_LoneParticle.cpp, RigidBodyNodeSpec_Derived.cpp,
 // SimbodyMatterSubsystemRep.cpp) are compiled from the CURRENT tree into this executable (VERIF_REPO honoured).
+// After the ntrees ordinary trees (unchanged random stream) ntrees/4 (at least 4) "lone particle" trees follow: first body a Ball or Free on Ground (so that
+// every later mobilizer has qIndex != uIndex), 0-2 further random bodies, then a Translation mobilizer directly on Ground with identity frames and no children
+// (this gets the special node RBNodeLoneParticle), and in every other such tree one more Pin after it (so the particle's slots are not the last ones).
 // Checks (relative tolerance 1e-7 on quantities of size O(1..100)):
 //   [FDID]  residual(calcAccelerationIgnoringConstraints(f,F)) == 0
 //   [IDFD]  calcAccelerationIgnoringConstraints(f + residual(udot*), F) == udot*
@@ -14,6 +17,7 @@
 //   [POWER] d/dt KE along the forward-dynamics solution (central finite difference over q + h qdot, u + h udot) == f.u + sum_k F_k.V_k
 //           (independent of the inverse-dynamics code: catches errors that forward and inverse dynamics share, e.g. a wrong bias term)
 //   [ACC]   A_GB of forward dynamics == central finite difference of V_GB along (qdot, udot)
+//   [QDOT]  qdot of realize(Velocity) == multiplyByN(u); qdotdot of calcQDotDot(udot) == N udot + NDot u for the lone-particle trees (N = 1 there: slots by qIndex/uIndex)
 // usage: c02_replay [seed=N] [ntrees=K] [checks=FDID,IDFD,...|all]
 // prints one "MISMATCH ..." line per failed comparison and finally "REPRODUCED: <n> mismatches ..." or "NOT-REPRODUCED".
 #include "Simbody.h"
@@ -77,7 +81,17 @@ static MobilizedBody addBody(MobilizedBody& parent, const std::string& kind, std
     return MobilizedBody::Screw(parent, X_PF, body, X_BM, 0.3, dir);
 }
 
-static void oneTree(int t) {
+static MobilizedBody addLoneParticle(SimbodyMatterSubsystem& matter, std::string& descr) {
+    Real m = 0.5 + 1.5*std::abs(rnd());
+    Vec3 com = (rnd() > 0) ? rv(0.4) : Vec3(0);
+    UnitInertia G = UnitInertia::brick(0.1+0.3*std::abs(rnd()), 0.1+0.3*std::abs(rnd()), 0.1+0.3*std::abs(rnd()));
+    G = G.reexpress(rrot()).shiftFromCentroid(com);
+    Body::Rigid body(MassProperties(m, com, G));
+    descr += "LoneParticle(Translation on Ground, identity frames) ";
+    return MobilizedBody::Translation(matter.Ground(), Transform(), body, Transform());
+}
+
+static void oneTree(int t, bool lone = false) {
     MultibodySystem system;
     SimbodyMatterSubsystem matter(system);
     GeneralForceSubsystem forces(system);
@@ -89,7 +103,12 @@ static void oneTree(int t) {
         int p = (int)(std::abs(rnd())*(bodies.size()-1e-9));
         if (rnd() > 0.3) p = (int)bodies.size()-1;                       // mostly chains, sometimes branches
         int k = (t < 12) ? ((t + b) % 6) : (int)(std::abs(rnd())*11.999);  // the first trees cycle through Pin/Slider/Universal/Cylinder/Ball/Free
+        if (lone && b == 0) { p = 0; k = 4 + (t % 2); }                    // Ball / Free first: 4 (resp. 7) q-slots for 3 (resp. 6) u-slots
         bodies.push_back(addBody(bodies[p], KINDS[k], descr));
+    }
+    if (lone) {
+        addLoneParticle(matter, descr);                                    // never a parent
+        if ((t / 2) % 2) addBody(bodies.back(), "Pin", descr);
     }
     bool euler = (t % 2) == 1;
     State s = system.realizeTopology();
@@ -173,6 +192,11 @@ static void oneTree(int t) {
         Vector Mu2; matter.multiplyByM(s, s.getU(), Mu2);
         cmp1("KE", t, D + "calcKineticEnergy vs u'Mu/2", matter.calcKineticEnergy(s), 0.5*(~s.getU()*Mu2), 1e-9);
     }
+    if (want("QDOT")) {
+        Vector Nu;
+        matter.multiplyByN(s, false, s.getU(), Nu);
+        cmp("QDOT", t, D + "qdot of realize(Velocity) vs multiplyByN(u)", s.getQDot(), Nu, 1e-9);
+    }
     if (want("POWER") || want("ACC")) {
         // central finite difference along the forward-dynamics solution
         Vector qdot = s.getQDot();
@@ -200,17 +224,19 @@ static void oneTree(int t) {
 
 int main(int argc, char** argv) {
     int ntrees = 40;
+    std::setvbuf(stdout, nullptr, _IOLBF, 0);          // a changed tree may corrupt memory: keep the MISMATCH lines printed before an abort
     for (int i = 1; i < argc; ++i) {
         if (!std::strncmp(argv[i], "seed=", 5)) { rs ^= (unsigned long long)std::atoll(argv[i]+5) * 2654435761ULL; if (!rs) rs = 1; }
         else if (!std::strncmp(argv[i], "ntrees=", 7)) ntrees = std::atoi(argv[i]+7);
         else if (!std::strncmp(argv[i], "checks=", 7)) CHECKS = argv[i]+7;
     }
     for (int w = 0; w < 5; ++w) rnd();
-    for (int t = 0; t < ntrees; ++t) {
-        try { oneTree(t); }
+    const int nlone = std::max(4, ntrees/4);
+    for (int t = 0; t < ntrees + nlone; ++t) {
+        try { oneTree(t, t >= ntrees); }
         catch (const std::exception& e) { ++nmis; std::printf("MISMATCH [EXC] tree %d: exception %s\n", t, e.what()); }
     }
-    if (nmis) std::printf("REPRODUCED: %d mismatches over %d random trees (checks=%s)\n", nmis, ntrees, CHECKS.c_str());
-    else std::printf("NOT-REPRODUCED (%d random trees, checks=%s)\n", ntrees, CHECKS.c_str());
+    if (nmis) std::printf("REPRODUCED: %d mismatches over %d random trees + %d lone-particle trees (checks=%s)\n", nmis, ntrees, nlone, CHECKS.c_str());
+    else std::printf("NOT-REPRODUCED (%d random trees + %d lone-particle trees, checks=%s)\n", ntrees, nlone, CHECKS.c_str());
     return 0;
 }
